@@ -9,13 +9,26 @@
 //! (2) environment = exported visible variables with their current values, evaluated through
 //! `get`, (3) a failed `assign`/`unset` (read-only) changes nothing.
 //!
+//! Extension round: `sq N S Q` (`set_quirk`), `init` (`VariableSet::init`), `xp N LOC`
+//! (`Variable::expand` at a location, possibly behind alias substitutions); every observation also
+//! carries the quirk of each variable and the expansion of the visible variable at a fixed location;
+//! when the case ends the guards still alive are dropped one by one with an observation after each
+//! (`r=unwind`), so hidden instances are always seen; a refused operation must leave the whole set
+//! `==` to a clone taken before it (hidden instances included).
+//!
 //! `push_context` returns an RAII guard and there is no public pop, so the operation sequence is
 //! interpreted recursively: `p*` recurses with the guard alive, `pop` returns (unmatched pops are
 //! ignored), the end of the case drops every guard without further observation.
 
 use std::collections::{BTreeMap, HashSet, VecDeque};
-use yash_env::source::Location;
-use yash_env::variable::{Context, PositionalParams, Scope, Value, Variable, VariableSet};
+use std::cell::RefCell;
+use std::num::NonZeroU64;
+use std::rc::Rc;
+use yash_env::alias::Alias;
+use yash_env::source::{Code, Location, Source};
+use yash_env::variable::{
+    Context, Expansion, PositionalParams, Quirk, Scope, Value, Variable, VariableSet,
+};
 use yverif::proto::{Opts, dec_str, emit, enc_bytes, enc_str, guarded, quiet_panics};
 use yverif::rng::Rng;
 
@@ -31,6 +44,63 @@ enum Op {
     Un(String, Scope),
     Sp(Vec<String>),
     Ee(String, String),
+    Sq(String, Scope, bool),
+    Init,
+    Xp(String, Vec<(u64, String, usize)>),
+}
+
+/// `LINE:START:<hex text>[@…]`: the location itself first, then the locations of the words whose
+/// alias substitution produced the code before
+fn parse_loc(t: &str) -> Option<Vec<(u64, String, usize)>> {
+    t.split('@')
+        .map(|seg| {
+            let mut it = seg.split(':');
+            let l: u64 = it.next()?.parse().ok()?;
+            let st: usize = it.next()?.parse().ok()?;
+            let x = dec_str(it.next()?)?;
+            if it.next().is_some() || l == 0 {
+                return None;
+            }
+            Some((l, x, st))
+        })
+        .collect()
+}
+
+fn mk_loc(segs: &[(u64, String, usize)]) -> Location {
+    let mut it = segs.iter().rev();
+    let code = |l: u64, x: &str, source: Source| {
+        Rc::new(Code {
+            value: RefCell::new(x.to_string()),
+            start_line_number: NonZeroU64::new(l).unwrap(),
+            source: Rc::new(source),
+        })
+    };
+    let (l, x, st) = it.next().expect("a location has at least one segment");
+    let mut loc = Location { code: code(*l, x, Source::Unknown), range: *st..*st + 1 };
+    for (l, x, st) in it {
+        let alias = Rc::new(Alias {
+            name: "a".to_string(),
+            replacement: x.clone(),
+            global: false,
+            origin: Location::dummy(""),
+        });
+        loc = Location {
+            code: code(*l, x, Source::Alias { original: loc, alias }),
+            range: *st..*st + 1,
+        };
+    }
+    loc
+}
+
+/// the line a location is on, computed from the segments alone (not through the real code)
+fn naive_line(segs: &[(u64, String, usize)]) -> u64 {
+    let (l, x, st) = segs.last().expect("a location has at least one segment");
+    l + x.chars().take(*st).filter(|c| *c == '\n').count() as u64
+}
+
+/// the location every observation expands the visible variable at (Observe.lean `obsLoc`)
+fn obs_loc() -> Vec<(u64, String, usize)> {
+    vec![(1, "a".to_string(), 0), (3, "a\nb\nc".to_string(), 4)]
 }
 
 fn parse_scope(t: &str) -> Option<Scope> {
@@ -73,6 +143,10 @@ fn parse_op(t: &str) -> Option<Op> {
         ["un", n, s] => Op::Un(dec_str(n)?, parse_scope(s)?),
         ["sp", ps @ ..] => Op::Sp(strs(ps)?),
         ["ee", n, v] => Op::Ee(dec_str(n)?, dec_str(v)?),
+        ["sq", n, s, "L"] => Op::Sq(dec_str(n)?, parse_scope(s)?, true),
+        ["sq", n, s, "-"] => Op::Sq(dec_str(n)?, parse_scope(s)?, false),
+        ["init"] => Op::Init,
+        ["xp", n, l] => Op::Xp(dec_str(n)?, parse_loc(l)?),
         _ => return None,
     })
 }
@@ -101,12 +175,27 @@ fn show_value(v: &Option<Value>) -> String {
 
 fn show_var(v: &Variable) -> String {
     format!(
-        "{}/{}/{}/{}",
+        "{}/{}/{}/{}/{}",
         show_value(&v.value),
         v.is_exported as u8,
         show_loc(&v.read_only_location),
-        show_loc(&v.last_assigned_location)
+        show_loc(&v.last_assigned_location),
+        match v.quirk {
+            None => "-",
+            Some(Quirk::LineNumber) => "L",
+        }
     )
+}
+
+fn show_expansion(e: &Expansion) -> String {
+    match e {
+        Expansion::Unset => "~".into(),
+        Expansion::Scalar(s) => format!("s:{}", enc_str(s)),
+        Expansion::Array(vs) => format!(
+            "a:{}",
+            vs.iter().map(|s| enc_str(s)).collect::<Vec<_>>().join(",")
+        ),
+    }
 }
 
 fn show_opt_var(v: Option<&Variable>) -> String {
@@ -121,6 +210,8 @@ trait View {
     fn env(&self) -> Vec<Vec<u8>>;
     fn params(&self) -> Vec<String>;
     fn get_scalar(&self, n: &str) -> Option<String>;
+    /// text of the expansion of the visible variable at a location (`-` if there is none)
+    fn expand_at(&self, n: &str, segs: &[(u64, String, usize)]) -> String;
 }
 
 impl View for VariableSet {
@@ -146,6 +237,12 @@ impl View for VariableSet {
     }
     fn get_scalar(&self, n: &str) -> Option<String> {
         VariableSet::get_scalar(self, n).map(|s| s.to_string())
+    }
+    fn expand_at(&self, n: &str, segs: &[(u64, String, usize)]) -> String {
+        match VariableSet::get(self, n) {
+            None => "-".into(),
+            Some(v) => show_expansion(&v.expand(&mk_loc(segs))),
+        }
     }
 }
 
@@ -173,6 +270,7 @@ fn observe<V: View + ?Sized>(s: &V, r: &str, names: &[String]) -> String {
             show_opt_var(s.get_scoped(n, Scope::Volatile).as_ref()),
         ));
         out.push_str(&format!("|{}", s.get_scalar(n).map(|x| enc_str(&x)).unwrap_or_else(|| "~".into())));
+        out.push_str(&format!("|{}", s.expand_at(n, &obs_loc())));
     }
     for (tag, sc) in [("ig", Scope::Global), ("il", Scope::Local), ("iv", Scope::Volatile)] {
         let mut v: Vec<String> = s
@@ -353,6 +451,24 @@ impl Naive {
                 self.ctxs[i].params = ps.clone();
                 "done".into()
             }
+            Op::Sq(n, s, q) => {
+                if !self.get_or_new(n, *s) {
+                    return "novol".into();
+                }
+                self.visible_mut(n).unwrap().quirk = q.then_some(Quirk::LineNumber);
+                "done".into()
+            }
+            Op::Init => {
+                // the documentation of `VariableSet::init`: "assigns the following variables:
+                // IFS=' \t\n', OPTIND=1, PS1='$ ', PS2='> ', PS4='+ ', LINENO (with no value, but has
+                // its quirk set to Quirk::LineNumber) … ignores any assignment errors"
+                for (n, v) in [("IFS", " \t\n"), ("OPTIND", "1"), ("PS1", "$ "), ("PS2", "> "), ("PS4", "+ ")] {
+                    self.apply(&Op::As(n.to_string(), Scope::Global, Value::scalar(v), None));
+                }
+                self.apply(&Op::Sq("LINENO".to_string(), Scope::Global, true));
+                "done".into()
+            }
+            Op::Xp(n, segs) => format!("xp({})", self.expand_at(n, segs)),
         }
     }
     fn key(&self) -> String {
@@ -402,6 +518,15 @@ impl View for Naive {
             Value::Array(_) => None,
         }
     }
+    /// "the value of a variable having `Quirk::LineNumber` is the line number of the location of the
+    /// parameter expansion"; without a quirk, the value
+    fn expand_at(&self, n: &str, segs: &[(u64, String, usize)]) -> String {
+        match View::get(self, n) {
+            None => "-".into(),
+            Some(v) if v.quirk.is_some() => format!("s:{}", enc_str(&naive_line(segs).to_string())),
+            Some(v) => show_value(&v.value),
+        }
+    }
 }
 
 /// "the environment handed to executed programs is exactly the exported variables with their
@@ -429,11 +554,26 @@ struct Run<'a> {
     obs: Vec<String>,
     naive: Naive,
     verdict: Option<String>,
+    /// the full naive state after the last operation, before the unwinding
+    key: Option<String>,
 }
 
 impl Run<'_> {
     /// records the observation of operation `k` (result `r`) and evaluates the oracle
-    fn after(&mut self, vs: &VariableSet, k: usize, r: &str, before: Option<&str>) {
+    /// observation after a guard was dropped at the end of the case
+    fn after_unwind(&mut self, vs: &VariableSet, r: &str) {
+        if self.key.is_none() {
+            self.key = Some(self.naive.key());
+        }
+        self.naive.apply(&Op::Pop);
+        let r = if r == "done" { "unwind" } else { r };
+        let o = observe(vs, r, &self.names);
+        if self.verdict.is_none() && observe(&self.naive, "unwind", &self.names) != o {
+            self.verdict = Some("FAIL:naive@unwind".to_string());
+        }
+        self.obs.push(o);
+    }
+    fn after(&mut self, vs: &VariableSet, k: usize, r: &str, before: Option<(&str, &VariableSet)>) {
         let nr = self.naive.apply(&self.ops[k]);
         let o = observe(vs, r, &self.names);
         if self.verdict.is_none() {
@@ -454,9 +594,19 @@ impl Run<'_> {
                 }
                 // a refused assignment / unset leaves everything as it was
                 if r.starts_with("ro(") && matches!(self.ops[k], Op::Un(..)) {
-                    if let Some(b) = before {
-                        if strip_r(b) != strip_r(&o) {
+                    if let Some((b, whole)) = before {
+                        // the observation is unchanged, and so is the whole set (`VariableSet: Eq`
+                        // compares every instance of every name, hidden ones included)
+                        if strip_r(b) != strip_r(&o) || whole != vs {
                             self.verdict = Some(format!("FAIL:readonly-unset-changed@{k}"));
+                        }
+                    }
+                }
+                // a read-only expansion changes nothing at all
+                if matches!(self.ops[k], Op::Xp(..)) {
+                    if let Some((_, whole)) = before {
+                        if whole != vs {
+                            self.verdict = Some(format!("FAIL:expand-changed@{k}"));
                         }
                     }
                 }
@@ -511,6 +661,15 @@ fn apply_real(vs: &mut VariableSet, op: &Op) -> String {
             vs.extend_env([(n.clone(), v.clone())]);
             "done".into()
         }
+        Op::Sq(n, s, q) => {
+            vs.get_or_new(n.as_str(), *s).set_quirk(q.then_some(Quirk::LineNumber));
+            "done".into()
+        }
+        Op::Init => {
+            vs.init();
+            "done".into()
+        }
+        Op::Xp(n, segs) => format!("xp({})", View::expand_at(&*vs, n, segs)),
         Op::PushR(_) | Op::PushV | Op::Pop => unreachable!(),
     });
     // the documented panic of `get_or_new(_, Scope::Volatile)` without a volatile top context
@@ -546,6 +705,8 @@ fn exec(vs: &mut VariableSet, run: &mut Run, depth: usize) -> bool {
                     "done".into()
                 });
                 if !popped {
+                    // the case ended inside this context: its guard has just been dropped
+                    run.after_unwind(vs, &r);
                     return false;
                 }
                 let kp = run.i - 1;
@@ -559,8 +720,9 @@ fn exec(vs: &mut VariableSet, run: &mut Run, depth: usize) -> bool {
             }
             op => {
                 let before = observe(&*vs, "", &run.names);
+                let whole = vs.clone();
                 let r = apply_real(vs, op);
-                run.after(vs, k, &r, Some(&before));
+                run.after(vs, k, &r, Some((&before, &whole)));
             }
         }
     }
@@ -571,12 +733,23 @@ fn names_of(ops: &[Op]) -> Vec<String> {
     let mut v: Vec<String> = ops
         .iter()
         .filter_map(|op| match op {
-            Op::Gn(n, _) | Op::As(n, ..) | Op::Ex(n, ..) | Op::Ro(n, ..) | Op::Un(n, _) | Op::Ee(n, _) => {
-                Some(n.clone())
-            }
+            Op::Gn(n, _)
+            | Op::As(n, ..)
+            | Op::Ex(n, ..)
+            | Op::Ro(n, ..)
+            | Op::Un(n, _)
+            | Op::Ee(n, _)
+            | Op::Sq(n, ..)
+            | Op::Xp(n, _) => Some(n.clone()),
             _ => None,
         })
         .collect();
+    if ops.iter().any(|op| matches!(op, Op::Init)) {
+        // the names `init` defines, asked of the real code: whatever a fresh set holds afterwards
+        let mut fresh = VariableSet::new();
+        fresh.init();
+        v.extend(fresh.iter(Scope::Global).map(|(n, _)| n.to_string()));
+    }
     v.sort_by_key(|n| enc_str(n));
     v.dedup();
     v
@@ -600,10 +773,11 @@ fn run_case(case: &str) -> (String, String, String) {
         obs: vec![],
         naive: Naive::new(),
         verdict: None,
+        key: None,
     };
     let mut vs = VariableSet::new();
     exec(&mut vs, &mut run, 0);
-    let key = run.naive.key();
+    let key = run.key.take().unwrap_or_else(|| run.naive.key());
     (
         run.obs.join(" | "),
         run.verdict.unwrap_or_else(|| "ok".into()),
@@ -1279,6 +1453,18 @@ fn random_script(r: &mut Rng) -> String {
 
 const X: &str = "78";
 const Y: &str = "79";
+const LINENO: &str = "4c494e454e4f";
+const IFS: &str = "494653";
+
+/// a location for `xp`: a few codes with newlines, sometimes behind one or two alias substitutions
+fn random_loc(r: &mut Rng) -> String {
+    let seg = |r: &mut Rng| {
+        let text = *r.pick(&["61", "610a620a63", "0a0a0a", "-", "610a", "c3a90a780a79"]);
+        format!("{}:{}:{}", 1 + r.below(9), r.below(8), text)
+    };
+    let k = [1, 1, 2, 3][r.below(4)];
+    (0..k).map(|_| seg(r)).collect::<Vec<_>>().join("@")
+}
 
 fn alphabet(thorough: bool) -> Vec<String> {
     let mut ops: Vec<String> = vec!["pr".into(), "pv".into(), "pop".into()];
@@ -1293,7 +1479,12 @@ fn alphabet(thorough: bool) -> Vec<String> {
     ops.push(format!("as {Y} g s:33 3"));
     ops.push(format!("as {Y} v s:34 4"));
     ops.push(format!("un {Y} l"));
+    ops.push(format!("sq {X} l L"));
     if thorough {
+        // (`init` is not in the breadth-first alphabet: six more names in every observation; one
+        // random history in five starts with it)
+        ops.push(format!("sq {X} v L"));
+        ops.push(format!("sq {X} g -"));
         ops.push("pr 61".into());
         ops.push(format!("ex {X} g 0"));
         ops.push(format!("as {Y} l a:35,36 5"));
@@ -1313,8 +1504,15 @@ fn random_case(r: &mut Rng, thorough: bool) -> String {
     let mut ops: Vec<String> = vec![];
     let mut kinds: Vec<bool> = vec![true]; // true = regular
     let mut next_loc = 1;
+    // one history in five starts like the shell does (`init`), and then also works on LINENO / IFS
+    let with_init = r.chance(1, 5);
+    if with_init {
+        ops.push("init".to_string());
+    }
     for _ in 0..len {
-        let name = if r.chance(3, 5) {
+        let name = if with_init && r.chance(1, 2) {
+            *r.pick(&[LINENO, LINENO, IFS])
+        } else if r.chance(3, 5) {
             X
         } else {
             *r.pick(&names)
@@ -1328,7 +1526,12 @@ fn random_case(r: &mut Rng, thorough: bool) -> String {
         } else {
             *r.pick(&["g", "l", "l"])
         };
-        let op = match r.below(20) {
+        let op = match r.below(24) {
+            20 | 21 => format!("sq {name} {scope} {}", if r.chance(3, 4) { "L" } else { "-" }),
+            22 => format!("xp {name} {}", random_loc(r)),
+            23 => {
+                if r.chance(1, 4) { "init".to_string() } else { format!("xp {name} {}", random_loc(r)) }
+            }
             0 | 1 => {
                 kinds.push(true);
                 if r.chance(1, 2) { "pr".to_string() } else { format!("pr {}", r.pick(&["61", "61 62", "-"])) }
